@@ -53,6 +53,12 @@ enum Dml {
     /// (index plan) with the rows of the scan.  No UPDATE is generated on these tables (stale index after a key UPDATE
     /// is a listed finding of C06, pinned by a test).
     CrtX(String),
+    /// table with a UNIQUE(id) table constraint (names start with `u`): CREATE takes an object id for the table and one for
+    /// the backing index, which is not logged separately
+    CrtU(String),
+    /// a multi-row UPDATE that fails on its last row after having rewritten the rows before it
+    /// (`UPDATE t SET v = v + 7000 / (id - <last id>)`): no effect; the statement's undo is logged
+    UpdFail(String, i64),
     Drp(String),
     Ins(String, i64, i64),
     Upd(String, i64, i64),
@@ -68,6 +74,8 @@ impl Dml {
             Dml::Crt(t) => format!("CREATE TABLE {} (id BIGINT, v INT)", t),
             Dml::CrtW(t) => format!("CREATE TABLE {} (id BIGINT, v INT, pad TEXT)", t),
             Dml::CrtX(t) => format!("CREATE TABLE {} (id BIGINT, v INT)", t),
+            Dml::CrtU(t) => format!("CREATE TABLE {} (id BIGINT, v INT, UNIQUE(id))", t),
+            Dml::UpdFail(t, last) => format!("UPDATE {} SET v = v + 7000 / (id - {})", t, last),
             Dml::Drp(t) => format!("DROP TABLE {}", t),
             Dml::Ins(t, id, v) if t.starts_with('w') => {
                 format!("INSERT INTO {} VALUES ({}, {}, '{}')", t, id, v, "p".repeat(600))
@@ -86,6 +94,8 @@ impl Dml {
         Some(match ws {
             ["crt", t] if t.starts_with('w') || t.starts_with('v') => Dml::CrtW(t.to_string()),
             ["crt", t] if t.starts_with('x') => Dml::CrtX(t.to_string()),
+            ["crt", t] if t.starts_with('u') => Dml::CrtU(t.to_string()),
+            ["updf", t, last] => Dml::UpdFail(t.to_string(), last.parse().ok()?),
             ["crt", t] => Dml::Crt(t.to_string()),
             ["drp", t] => Dml::Drp(t.to_string()),
             ["ins", t, id, v] => Dml::Ins(t.to_string(), id.parse().ok()?, v.parse().ok()?),
@@ -97,7 +107,8 @@ impl Dml {
     }
     fn show(&self) -> String {
         match self {
-            Dml::Crt(t) | Dml::CrtW(t) | Dml::CrtX(t) => format!("crt {}", t),
+            Dml::Crt(t) | Dml::CrtW(t) | Dml::CrtX(t) | Dml::CrtU(t) => format!("crt {}", t),
+            Dml::UpdFail(t, last) => format!("updf {} {}", t, last),
             Dml::Drp(t) => format!("drp {}", t),
             Dml::Ins(t, id, v) => format!("ins {} {} {}", t, id, v),
             Dml::Upd(t, id, v) => format!("upd {} {} {}", t, id, v),
@@ -107,7 +118,7 @@ impl Dml {
     }
     fn table(&self) -> &str {
         match self {
-            Dml::Crt(t) | Dml::CrtW(t) | Dml::CrtX(t) | Dml::Drp(t) | Dml::Ins(t, _, _) | Dml::Upd(t, _, _) | Dml::Del(t, _) | Dml::Alt(t) => t,
+            Dml::Crt(t) | Dml::CrtW(t) | Dml::CrtX(t) | Dml::CrtU(t) | Dml::UpdFail(t, _) | Dml::Drp(t) | Dml::Ins(t, _, _) | Dml::Upd(t, _, _) | Dml::Del(t, _) | Dml::Alt(t) => t,
         }
     }
 }
@@ -180,7 +191,7 @@ fn show_op(op: &Op) -> String {
 fn table_names(ops: &[Op]) -> Vec<String> {
     let mut v: Vec<String> = Vec::new();
     let mut add = |d: &Dml| {
-        if matches!(d, Dml::Crt(_) | Dml::CrtW(_) | Dml::CrtX(_)) && !v.contains(&d.table().to_string()) {
+        if matches!(d, Dml::Crt(_) | Dml::CrtW(_) | Dml::CrtX(_) | Dml::CrtU(_)) && !v.contains(&d.table().to_string()) {
             v.push(d.table().to_string());
         }
     };
@@ -973,10 +984,14 @@ fn gen_workload(rng: &mut Rng, _head: &str, idx: usize) -> (Vec<Op>, Vec<String>
     // big_log: wide rows (table names starting with `w`), so that the log spans several blocks between checkpoints
     let wide = family == "big_log" || family == "steal" || family == "overflow";
     let indexed = family == "indexed";
-    let prefix = if family == "overflow" { "v" } else if wide { "w" } else if indexed { "x" } else { "t" };
+    let constrained = family == "clean" && idx % 20 == 10;
+    let prefix = if family == "overflow" { "v" } else if wide { "w" } else if indexed { "x" } else if constrained { "u" } else { "t" };
     let tables: Vec<String> = (1..=ntables).map(|i| format!("{}{}", prefix, i)).collect();
     for t in &tables {
-        ops.push(Op::Auto(if wide { Dml::CrtW(t.clone()) } else if indexed { Dml::CrtX(t.clone()) } else { Dml::Crt(t.clone()) }));
+        ops.push(Op::Auto(if wide { Dml::CrtW(t.clone()) } else if indexed { Dml::CrtX(t.clone()) } else if constrained { Dml::CrtU(t.clone()) } else { Dml::Crt(t.clone()) }));
+    }
+    if constrained {
+        tags.push("table_constraint".into());
     }
     if family != "no_init_ckpt" {
         ops.push(Op::Flush);
@@ -1055,6 +1070,27 @@ fn gen_workload(rng: &mut Rng, _head: &str, idx: usize) -> (Vec<Op>, Vec<String>
                     ops.push(Op::Vacuum);
                     continue;
                 }
+                "mixed_txn" => {
+                    // once per workload: a committing session whose second statement fails after having rewritten rows
+                    sess += 1;
+                    ops.push(Op::SBegin(sess));
+                    let mut last = 0;
+                    for _ in 0..2 {
+                        let id = next_id[&t];
+                        *next_id.get_mut(&t).unwrap() += 1;
+                        ops.push(Op::SDml(sess, Dml::Ins(t.clone(), id, rng.range(0, 99))));
+                        live.get_mut(&t).unwrap().push(id);
+                        last = id;
+                    }
+                    ops.push(Op::SDml(sess, Dml::UpdFail(t.clone(), last)));
+                    let id = next_id[&t];
+                    *next_id.get_mut(&t).unwrap() += 1;
+                    ops.push(Op::SDml(sess, Dml::Ins(t.clone(), id, rng.range(0, 99))));
+                    live.get_mut(&t).unwrap().push(id);
+                    ops.push(Op::SCommit(sess));
+                    tags.push("session_failed_multirow_update".into());
+                    continue;
+                }
                 "overflow" => {
                     // free the overflow chains of the rows deleted so far, so that later rows re-use their pages
                     for _ in 0..2 {
@@ -1122,6 +1158,12 @@ fn gen_workload(rng: &mut Rng, _head: &str, idx: usize) -> (Vec<Op>, Vec<String>
                     *next_id.get_mut(&t).unwrap() += 1;
                     ops.push(Op::SDml(sess, Dml::Ins(t.clone(), id, if indexed { uniq_v(&t, id) } else { rng.range(0, 99) })));
                     live.get_mut(&t).unwrap().push(id);
+                }
+                if family == "mixed_txn" && live[&t].len() >= 2 {
+                    // a statement that fails on its last row after having rewritten the rows before it; the transaction goes on
+                    let last = *live[&t].iter().max().unwrap();
+                    ops.push(Op::SDml(sess, Dml::UpdFail(t.clone(), last)));
+                    tags.push("session_failed_multirow_update".into());
                 }
                 if family == "mixed_txn" {
                     // rows committed before this transaction began
@@ -1214,7 +1256,7 @@ fn gen_workload(rng: &mut Rng, _head: &str, idx: usize) -> (Vec<Op>, Vec<String>
                 // a failing autocommit statement, of several kinds (each must leave no trace, also in the log replay)
                 match rng.below(3) {
                     0 => ops.push(Op::Auto(Dml::Ins("nosuch".into(), 1, 1))),
-                    1 => ops.push(Op::Auto(if wide { Dml::CrtW(t.clone()) } else if indexed { Dml::CrtX(t.clone()) } else { Dml::Crt(t.clone()) })), // already exists
+                    1 => ops.push(Op::Auto(if wide { Dml::CrtW(t.clone()) } else if indexed { Dml::CrtX(t.clone()) } else if constrained { Dml::CrtU(t.clone()) } else { Dml::Crt(t.clone()) })), // already exists
                     _ => ops.push(Op::Auto(Dml::Drp("nosuch".into()))),
                 }
                 tags.push("failed_stmt".into());
@@ -1241,7 +1283,7 @@ fn gen_workload(rng: &mut Rng, _head: &str, idx: usize) -> (Vec<Op>, Vec<String>
 fn hasTable(ops: &[Op], t: &str) -> bool {
     let mut exists = false;
     for op in ops {
-        if let Op::Auto(Dml::Crt(x)) | Op::Auto(Dml::CrtW(x)) | Op::Auto(Dml::CrtX(x)) = op {
+        if let Op::Auto(Dml::Crt(x)) | Op::Auto(Dml::CrtW(x)) | Op::Auto(Dml::CrtX(x)) | Op::Auto(Dml::CrtU(x)) = op {
             if x == t {
                 exists = true;
             }
